@@ -3,7 +3,7 @@
   point back (`lpSolveCalls`, `lpSolveSome`, result codes from the translator), what the driver's trace test means, and
   what an accepted point that satisfies the generated rows EXACTLY certifies (composition with `mdpLP_sound`).
 -/
-import AITB.Props.C15Mdp
+import AITB.Props.C15Obj
 import AITB.Gen.C15Facts
 
 namespace AITB.FLP
@@ -93,5 +93,17 @@ theorem accepted_point_certifies_bellman (joined : Bool) (S A : List Nat) (γ : 
     (w, −h·w, γ g w, R, final) = (2, −2, 1, 1, 2, 0)  (test on literals) -/
 example : pointSatB 0 (mdpGen true [1] [1] (1/2) [⟨[0], [1]⟩] [⟨[0], [0], [1]⟩] [⟨[0], [0], [1]⟩]).1 [2, -2, 1, 1, 2, 0] = true := by
   decide +kernel
+
+/-- **what `ok` means for a factored-MDP case (optimality half)**: if the driver's certificate `y` passes `dualOk` for the flat
+    LP and the stated objective of the returned weights is within `ε` of the certified bound, then NO weight vector whose value
+    function satisfies `V ≥ R + γ P V` at every joint state and action has a stated objective smaller by more than `ε` -/
+theorem mdp_verdict_sound (S A : List Nat) (ddn : List DNode) (R : List BasisM) (γ : Rat) (h : List Basis) (c w y : List Rat) (ε : Rat)
+    (hd : dualOk h.length (mdpFlatRows S A ddn R γ h) c y = true)
+    (hw : dotN h.length c w ≤ dualVal (mdpFlatRows S A ddn R γ h) y + ε) :
+    ∀ w' : List Rat, (∀ s a, Valid S s → Valid A a → mdpBackup S A ddn R γ h w' s a ≤ mdpV S h w' s) →
+      dotN h.length c w ≤ dotN h.length c w' + ε := by
+  intro w' hfeas
+  have := weak_duality_sound h.length (mdpFlatRows S A ddn R γ h) c y w' hd ((mdpFlatRows_sat_iff S A ddn R γ h w').mpr hfeas)
+  linarith
 
 end AITB.FLP
